@@ -795,6 +795,24 @@ func genCaseC04(t *rapid.T) *c04Case {
 			w = rapid.SampledFrom(p.either).Draw(t, "eitherV")
 		}
 	}
+	if rapid.IntRange(0, 9).Draw(t, "sharedVariable") == 0 {
+		// one variable at two use sites whose declared types differ: each site gets the value coerced
+		// for ITS type, whatever the other site made of it
+		pair := rapid.SampledFrom([][3]string{{"Float", "Float64", "Float64"}, {"Float64", "Float", "Float64"}, {"Int", "Int64", "Int64"}, {"Int64", "Int", "Int64"},
+			{"ID", "String", "String"}, {"String", "ID", "String"}, {"Int", "Int64", "Int"}}).Draw(t, "sharedPair")
+		c.ArgT, c.ArgT2 = hx.Named(pair[0]), hx.Named(pair[1])
+		c.Channel, c.Mode, c.GoInputs = "var", "good", false
+		sg := &wgen{t: t, s: c04Schema(c.ArgT, c.ArgT2), varCh: true}
+		sw := sg.good(hx.Named(pair[2]).NN(), "sharedW")
+		c.W, c.W2 = sw, &sw
+		c.Vars = []hx.KV{{Key: "v", V: sw}}
+		args := "a: $v, b: $v"
+		if rapid.Bool().Draw(t, "sharedOrder") {
+			args = "b: $v, a: $v"
+		}
+		c.Text = "query Q($v: " + pair[2] + ") { z k: f(" + args + ") }"
+		return c
+	}
 	if c.Channel == "omitted" {
 		// the request does not write the argument at all - after the same field was resolved WITH a
 		// good value: by a sibling selection of the same request and / or by an earlier request on the root
